@@ -8,8 +8,9 @@ import (
 )
 
 type globalInfo struct {
-	initOnly bool // stored to only by the package initialiser
-	nonNil   bool // initialised with a value known to be non-nil
+	initOnly bool          // stored to only by the package initialiser
+	nonNil   bool          // initialised with a value known to be non-nil
+	initFn   *ssa.Function // initialised with this function (var F = pkg.G)
 }
 
 // globalInfo analyses how a package-level variable is written: a variable that
@@ -38,6 +39,11 @@ func (e *Engine) globalInfo(g *ssa.Global) globalInfo {
 							gi.initOnly = false
 						} else {
 							gi.nonNil = knownNonNil(x.Val)
+							if f, ok := x.Val.(*ssa.Function); ok {
+								gi.initFn = f
+							} else {
+								gi.initFn = nil
+							}
 						}
 					}
 				default:
@@ -61,6 +67,27 @@ func (e *Engine) globalInfo(g *ssa.Global) globalInfo {
 		}
 	}
 	pkg := g.Pkg
+	if g.Object() != nil && g.Object().Exported() {
+		// an exported variable may be assigned from any package: look at all of them
+		for _, op := range e.prog.AllPackages() {
+			if op == pkg {
+				continue
+			}
+			for _, m := range op.Members {
+				switch m := m.(type) {
+				case *ssa.Function:
+					visit(m, false)
+				case *ssa.Type:
+					for _, t := range []types.Type{m.Type(), types.NewPointer(m.Type())} {
+						ms := e.prog.MethodSets.MethodSet(t)
+						for i := 0; i < ms.Len(); i++ {
+							visit(e.prog.MethodValue(ms.At(i)), false)
+						}
+					}
+				}
+			}
+		}
+	}
 	for _, m := range pkg.Members {
 		switch m := m.(type) {
 		case *ssa.Function:
